@@ -174,9 +174,16 @@ func (o *Array) BinaryOp(op token.Token, rhs Object) (Object, error) {
 		switch op {
 		case token.Add:
 			if len(rhs.Value) == 0 {
-				return o, nil
+				if len(o.Value) == 0 {
+					return o, nil
+				}
+				// never hand out the operand itself: the result is a new array
+				return &Array{Value: append([]Object{}, o.Value...)}, nil
 			}
-			return &Array{Value: append(o.Value, rhs.Value...)}, nil
+			// cap the capacity so that append always allocates: the result
+			// must not be written into (or alias) the operand's storage
+			return &Array{Value: append(
+				o.Value[:len(o.Value):len(o.Value)], rhs.Value...)}, nil
 		}
 	}
 	return nil, ErrInvalidOperator
@@ -399,7 +406,9 @@ func (o *Bytes) BinaryOp(op token.Token, rhs Object) (Object, error) {
 			if len(o.Value)+len(rhs.Value) > MaxBytesLen {
 				return nil, ErrBytesLimit
 			}
-			return &Bytes{Value: append(o.Value, rhs.Value...)}, nil
+			res := make([]byte, 0, len(o.Value)+len(rhs.Value))
+			res = append(res, o.Value...)
+			return &Bytes{Value: append(res, rhs.Value...)}, nil
 		}
 	}
 	return nil, ErrInvalidOperator
@@ -834,7 +843,11 @@ func (o *ImmutableArray) BinaryOp(op token.Token, rhs Object) (Object, error) {
 	if rhs, ok := rhs.(*ImmutableArray); ok {
 		switch op {
 		case token.Add:
-			return &Array{Value: append(o.Value, rhs.Value...)}, nil
+			// the mutable result must not share storage with an immutable
+			// operand
+			res := make([]Object, 0, len(o.Value)+len(rhs.Value))
+			res = append(res, o.Value...)
+			return &Array{Value: append(res, rhs.Value...)}, nil
 		}
 	}
 	return nil, ErrInvalidOperator
